@@ -1,0 +1,52 @@
+// Copyright 2026 The Mellium Contributors.
+// Use of this source code is governed by the BSD 2-clause
+// license that can be found in the LICENSE file.
+
+//go:build verif
+
+// This file contains no code. It carries machine-checked contracts (lines
+// starting with "//@") read by the verification tooling.
+
+package decl
+
+// C08/C12: the two token filters in front of the stream header. The skipper
+// drops at most the first token, and only an <?xml ...?> declaration; the
+// trimmer drops whitespace-only character data before the first start element;
+// every other token - and every error - is handed on unchanged.
+//@ spec xmlSpace(c byte) bool = c == ' ' || c == '\n' || c == '\r' || c == '\t'
+
+//@ func (*skipper).Token
+//@   ghost t1 xml.Token
+//@   ghost e1 error
+//@   ghost second bool = false
+//@   callsite (encoding/xml.TokenReader).Token#1
+//@     assert[C08,C12] arg0 == r.r
+//@     preserves r.started, r.r
+//@     after: t1 = ret0
+//@     after: e1 = ret1
+//@   callsite (encoding/xml.TokenReader).Token#2
+//@     assert[C08,C12] arg0 == r.r && !old(r.started) && typeof(t1) == xml.ProcInst && t1.(xml.ProcInst).Target == "xml" && e1 == nil
+//@     preserves r.started, r.r
+//@     after: second = true
+//@   ensures[C08,C12] !second ==> result0 == ite(e1 != nil && !old(r.started) && typeof(t1) == xml.ProcInst && t1.(xml.ProcInst).Target == "xml", nil, t1) && result1 == e1
+//@   ensures[C08,C12] t1 != nil ==> r.started
+//@   ensures[C08,C12] old(r.started) ==> r.started && !second
+
+//@ func (*trimmer).Token
+//@   ghost t1 xml.Token
+//@   ghost e1 error
+//@   ghost again bool = false
+//@   callsite (encoding/xml.TokenReader).Token#1
+//@     assert[C08,C12] arg0 == t.r
+//@     preserves t.foundStart, t.r
+//@     after: t1 = ret0
+//@     after: e1 = ret1
+//@   callsite (*trimmer).Token#1
+//@     assert[C08,C12] arg0 == t && !t.foundStart && typeof(t1) == xml.CharData && e1 == nil && (forall k int :: 0 <= k && k < len(t1.(xml.CharData)) ==> xmlSpace(t1.(xml.CharData)[k]))
+//@     after: again = true
+//@   ensures[C08,C12] !again ==> result1 == e1 && (result0 == t1 || (result0 == nil && e1 != nil && typeof(t1) == xml.CharData))
+//@   ensures[C08,C12] !again && !old(t.foundStart) && typeof(t1) == xml.StartElement ==> t.foundStart
+//@   ensures[C08,C12] old(t.foundStart) ==> !again && t.foundStart
+//@   loop 1
+//@     invariant[C08,C12] forall k int :: 0 <= k && k <= rangeindex ==> xmlSpace(char[k])
+//@     invariant[C08,C12] !again && t.foundStart == old(t.foundStart) && !old(t.foundStart)
